@@ -19,7 +19,7 @@ type mon struct {
 }
 
 func newMon(c *cfg) *mon {
-	nr := c.R + 3
+	nr := (c.H+1)*hStride + 1
 	m := &mon{pv: make([]int8, nr), pc: make([]int8, nr), lastPCr: -1, lastPCv: nilV, props: make([][]uint16, nr), pvRecv: make([][]uint8, nr)}
 	for i := range m.pv {
 		m.pv[i], m.pc[i] = none, none
@@ -94,6 +94,9 @@ func (m *mon) onPrevote(c *cfg, x msg) (string, string) {
 		ok := false
 		for _, p := range m.props[r] {
 			pv, vr := vid(p>>4), int(p&15)-1
+			if vr >= 0 {
+				vr += r / hStride * hStride // the proposal's valid round is a round of the same height
+			}
 			if pv == x.val && vr >= int(m.lastPCr) && vr < r && m.power(c, m.pvRecv[vr][x.val+1]) >= c.q {
 				ok = true
 			}
@@ -125,10 +128,12 @@ func (m *mon) onPrecommit(c *cfg, x msg) (string, string) {
 
 func (m *mon) onCommit(c *cfg, r int, v vid, sender int, h any) (string, string) {
 	if v < 0 || v == c.zVal {
+		m.lastPCr, m.lastPCv = -1, nilV
 		return "validity committed-invalid-value", fmt.Sprintf("committed V%d (Valid=false or unknown) at round %d", v, r)
 	}
+	m.lastPCr, m.lastPCv = -1, nilV // the lock does not survive the height
 	if sender != c.proposer(r) {
-		return "validity committed-proposal-not-from-proposer", fmt.Sprintf("round %d sender %d", r, sender)
+		return "validity committed-proposal-not-from-proposer", fmt.Sprintf("height %d round %d: committed proposal was sent by validator %d, proposer is %d", r/hStride, r%hStride, sender, c.proposer(r))
 	}
 	if r < len(m.props) {
 		for _, p := range m.props[r] {
